@@ -238,6 +238,41 @@ theorem denote_semilinear {cj : K → K} (hc : IsConj cj) (t : Term K) :
     simp only [parity, Option.some.injEq] at hb; subst hb
     simp only [denote, twist, conj_lincomb hc]; rfl
 
+/-- **Component-wise application of a (conjugate-)linear term is (conjugate-)linear** on the whole
+polarised field. -/
+theorem denoteBlocks_semilinear {cj : K → K} (hc : IsConj cj) (t : Term K) (b : Bool) (hb : parity t = some b)
+    (n : Nat) (a : K) : ∀ (r : Nat) (x y : List K), x.length = y.length →
+      denoteBlocks cj t n r (lincomb a x y)
+        = lincomb (twist cj b a) (denoteBlocks cj t n r x) (denoteBlocks cj t n r y) := by
+  intro r
+  induction r with
+  | zero => intro x y _; simp [denoteBlocks, lincomb, vadd, smul]
+  | succ r ih =>
+    intro x y h
+    have ht : (lincomb a x y).take n = lincomb a (x.take n) (y.take n) := by
+      simp [lincomb, vadd, smul, List.take_zipWith, List.map_take]
+    have hd : (lincomb a x y).drop n = lincomb a (x.drop n) (y.drop n) := by
+      simp [lincomb, vadd, smul, List.drop_zipWith, List.map_drop]
+    have hlt : (x.take n).length = (y.take n).length := by simp [List.length_take, h]
+    have hld : (x.drop n).length = (y.drop n).length := by simp [List.length_drop, h]
+    have hlen : (denote cj t (x.take n)).length = (denote cj t (y.take n)).length :=
+      denote_length_congr cj t _ _ hlt
+    simp only [denoteBlocks, ht, hd, denote_semilinear hc t b hb a _ _ hlt, ih _ _ hld]
+    simp only [lincomb, vadd, smul, List.map_append]
+    rw [List.zipWith_append (by simpa using hlen)]
+
+theorem denoteBlocks_length_congr (cj : K → K) (t : Term K) (n : Nat) :
+    ∀ (r : Nat) (x y : List K), x.length = y.length →
+      (denoteBlocks cj t n r x).length = (denoteBlocks cj t n r y).length := by
+  intro r
+  induction r with
+  | zero => intro x y _; rfl
+  | succ r ih =>
+    intro x y h
+    simp only [denoteBlocks, List.length_append]
+    rw [denote_length_congr cj t (x.take n) (y.take n) (by simp [List.length_take, h]),
+      ih (x.drop n) (y.drop n) (by simp [List.length_drop, h])]
+
 open Old in
 theorem sumsq_smul (a : Rat) (x : List Rat) : sumsq (smul a x) = a * a * sumsq x := by
   induction x with
@@ -347,6 +382,15 @@ theorem denote_map (h : ScalarHom φ cjK cjL) (t : Term K) :
   | comp s t ihs iht => intro x; simp [denote, Term.map, ihs, iht]
   | scale c t ih => intro x; simp [denote, Term.map, map_smul h, ih]
   | conj => intro x; simp [denote, Term.map, List.map_map, Function.comp_def, h.conj]
+
+theorem denoteBlocks_map (h : ScalarHom φ cjK cjL) (t : Term K) (n : Nat) :
+    ∀ (r : Nat) (x : List K), (denoteBlocks cjK t n r x).map φ = denoteBlocks cjL (t.map φ) n r (x.map φ) := by
+  intro r
+  induction r with
+  | zero => intro x; rfl
+  | succ r ih =>
+    intro x
+    simp only [denoteBlocks, List.map_append, denote_map h, ih, List.map_take, List.map_drop]
 
 theorem parity_map {K L : Type} (f : K → L) (t : Term K) : parity (t.map f) = parity t := by
   induction t with
